@@ -1060,8 +1060,11 @@ impl Parser {
             let out_term = self.get_output_els()?;
             if out_term.is_empty() && outputs.is_empty(){
                 return Err(RuleSyntaxError::EmptyOutput(self.group, self.line, self.token_list[self.pos].position.start))
-            } else if out_term.is_empty() && !self.expect(TokenKind::Comma) {
-                break;
+            } else if out_term.is_empty() {
+                if !self.expect(TokenKind::Comma) {
+                    break;
+                }
+                return Err(RuleSyntaxError::EmptyOutput(self.group, self.line, self.token_list[self.pos-1].position.start))
             }
 
             if let TokenKind::Diacritic(_) = self.curr_tkn.kind {
